@@ -108,6 +108,83 @@ func TestReplayCleanOutageAroundStop(t *testing.T) {
 	judge(t, h, nil, o, "replay")
 }
 
+// latKey names the latency stream of a session: kind d = direct send (start, stop, drain, recovery),
+// r = send from the retry queue, i = interim update.
+func latKey(sid, kind string) string { return sid + "|" + kind }
+
+// A slow RADIUS server, in virtual time: the Stop's direct send is rejected, its first queued attempt
+// travels 2.0–2.999 s (longer than RetryBaseDelay plus the wait for the next 1 s tick, shorter than the 3 s
+// client timeout).  The channel path and the retry ticker are only safe while they run one after the
+// other on the processor goroutine: if the ticker can re-send a record whose attempt is still in flight,
+// RADIUS acknowledges two Stops for one session without any crash.  Clean on the pinned tree; the case
+// also checks that the latency really was applied (otherwise the replay would be vacuous).
+func TestReplaySlowRetryAcrossTick(t *testing.T) {
+	for _, ms := range []int{2001, 2500, 2999} {
+		h := baseHistory(1)
+		h.Plan[planKey("replay-0", tStop)] = []bool{true}
+		h.Lat = map[string][]int{latKey("replay-0", "r"): {ms}}
+		h.Ops = []op{{K: "start", S: 0}, {K: "advance", D: 2}, {K: "stop", S: 0, Cause: 1}, {K: "advance", D: 8}}
+		o := execute(t, h, nil)
+		if o.trouble == "" {
+			slow := false
+			for _, sr := range o.sends {
+				slow = slow || (sr.Site == "retry" && !sr.Lost && sr.End-sr.Begin == time.Duration(ms)*time.Millisecond)
+			}
+			if !slow && radius.VerifMarkersCompiledIn() {
+				t.Fatalf("INCONCLUSIVE the %d ms latency was not applied to the queued Stop: sends=%v", ms, fmtSends(o.sends))
+			}
+		}
+		judge(t, h, nil, o, "replay")
+	}
+}
+
+// A request lost on the way (latency >= client timeout: the client gives up after exactly 3 virtual
+// seconds, the server never sees it) is a failed attempt like a rejected one: the Stop is queued, retried
+// and accepted exactly once.
+func TestReplayLostRequestIsRetried(t *testing.T) {
+	h := baseHistory(1)
+	h.Lat = map[string][]int{latKey("replay-0", "d"): {0, 3001}, latKey("replay-0", "r"): {5001, 300}}
+	h.Ops = []op{{K: "start", S: 0}, {K: "advance", D: 1}, {K: "stop", S: 0, Cause: 4}, {K: "advance", D: 12}}
+	o := execute(t, h, nil)
+	stops := 0
+	for _, e := range o.log {
+		if e.Type == tStop && e.Accepted {
+			stops++
+		}
+	}
+	if vs := evaluate(h, o); o.trouble == "" && radius.VerifMarkersCompiledIn() && len(vs) == 0 && stops != 1 {
+		t.Fatalf("INCONCLUSIVE sanity case expects exactly one accepted Stop, got %d; sends=%v", stops, fmtSends(o.sends))
+	}
+	judge(t, h, nil, o, "replay")
+}
+
+// KF-C08-7 in virtual time (the repaired defect must stay repaired): while the processor goroutine is
+// busy with one slow attempt (a queued Start travelling 2–3 s), the Stops of two other sessions fail and
+// are queued (map + channel).  When the slow attempt returns, ticker and channel are both ready; if the
+// ticker wins, it delivers a Stop from the map and the channel then hands the very same record to
+// processPendingRecord again.  Go's select chooses at random, so the case is run with several latencies
+// and two queued Stops each (p(miss) ~ 0.25 per run).
+func TestReplayQueuedWhileProcessorBusy(t *testing.T) {
+	for _, ms := range []int{2001, 2300, 2600, 2999} {
+		h := baseHistory(3)
+		h.Plan[planKey("replay-0", tStart)] = []bool{true}
+		h.Plan[planKey("replay-1", tStop)] = []bool{true}
+		h.Plan[planKey("replay-2", tStop)] = []bool{true}
+		h.Lat = map[string][]int{latKey("replay-0", "r"): {ms}}
+		h.Ops = []op{{K: "start", S: 1}, {K: "start", S: 2}, {K: "advance", D: 2},
+			{K: "start", S: 0}, {K: "stop", S: 1, Cause: 1}, {K: "stop", S: 2, Cause: 2}, {K: "advance", D: 10}}
+		judge(t, h, nil, execute(t, h, nil), "replay")
+	}
+}
+
+func fmtSends(ss []*sendRec) string {
+	out := ""
+	for _, s := range ss {
+		out += fmt.Sprintf("[%s/%s %s %v..%v lat=%d lost=%v port=%d] ", s.Site, s.Path, s.SID, s.Begin, s.End, s.LatMs, s.Lost, s.Port)
+	}
+	return out
+}
+
 // Sus 4 (real time, no bubble — the virtual-time harness cannot make a send take time): a queued record is
 // in pendingRecords AND in the channel.  If the processor goroutine is busy for more than RetryBaseDelay
 // (a slow server), the retry ticker picks the record from the map, delivers it, and the channel then
